@@ -79,6 +79,10 @@ def rule_doc(kind, i):
         base["detection"] = {"sel": {"fieldA": f"v{i}"}, "flt": {"fieldB|expand": f"%nope{i}%"}, "condition": "sel and not flt"}
     elif kind == "missingdet":
         base["detection"] = {"sel": {"fieldA": f"v{i}"}, "condition": "sel and nosuchdetection"}
+    elif kind == "usestarget":      # names the TARGET of the pipeline's field mapping directly (under a strict mapping check: not a mapped field)
+        base["detection"] = {"sel": {"mappedA": f"v{i}"}, "condition": "sel"}
+    elif kind == "unmapped":        # a field the mapping does not know
+        base["detection"] = {"sel": {"fieldA": f"v{i}", "zzz": 1}, "condition": "sel"}
     elif kind == "okmatch":
         base["detection"] = {"sel": match_items(i), "condition": "sel"}
     elif kind == "oknotmatch":
@@ -111,7 +115,13 @@ PIPE_STATE = {"name": "p", "priority": 10, "transformations": [
     {"id": "st_f2", "type": "set_state", "key": "extra", "val": "left", "rule_conditions": [{"type": "logsource", "category": "fail"}]},
     PIPE["transformations"][1],
 ]}
-PIPES = {False: PIPE_NOFAIL, True: PIPE, "add": PIPE_ADD, "state": PIPE_STATE}
+# a strict field-mapping check after the mapping: which fields count as mapped is bookkeeping of the rule at hand only
+PIPE_STRICT = {"name": "p", "priority": 10, "transformations": [
+    {"id": "map", "type": "field_name_mapping", "mapping": {"fieldA": "mappedA", "g": ["g1", "g2"], "h": "h", "fieldB": "mappedB"}},
+    {"id": "strict", "type": "strict_field_mapping_failure"},
+    PIPE["transformations"][1],
+]}
+PIPES = {False: PIPE_NOFAIL, True: PIPE, "add": PIPE_ADD, "state": PIPE_STATE, "strict": PIPE_STRICT}
 # backend variants: class attributes of a fresh TextQueryTestBackend subclass
 BACKENDS = {"std": {}, "noteq": {"convert_not_as_not_eq": True, "not_eq_token": "!="},
             "noin": {"convert_or_as_in": False, "convert_and_as_in": False},
@@ -196,6 +206,14 @@ def gen_cases(tier, seed, gen, effort):
             continue
         cases.append({"kinds": list(a), "pipe": rnd.choice([True, True, False, "add", "state"]), "collect": rnd.random() < 0.7,
                       "backend": rnd.choice(["std", "std", "noteq", "noin", "state"]), "callback": rnd.choice(CALLBACKS)})
+    # round 5 (b): stream 'strict' (own random stream) - a strict field-mapping check; rules naming a mapping target or an unknown field
+    # directly fail on their own, wherever they stand
+    rnd6 = random.Random(seed * 5701 + 86)
+    sk = ["ok1", "ok2", "oknot", "usestarget", "unmapped", "pipefail", "placeholder"]
+    sarrs = [a for n in (1, 2) for a in itertools.product(sk, repeat=n)] + [tuple(rnd6.choice(sk) for _ in range(rnd6.randint(3, 5))) for _ in range((120 if not thorough else 2000) * effort)]
+    for a in sarrs:
+        for collect in (True, False):
+            cases.append({"kinds": list(a), "pipe": "strict", "collect": collect, "backend": rnd6.choice(["std", "std", "noin"]), "stream": "strict"})
     # round 5: stream 'templates' (own random stream) - rules with one item of every match form, plain / negated / failing in the negated
     # part, in every position next to the other kinds
     rnd5 = random.Random(seed * 6007 + 85)
